@@ -11,6 +11,9 @@ import sys
 
 
 def main():
+    import gc
+    gc.disable()          # (pyboolector crashes when the cyclic collector finalises nodes after their solver: collect only
+                          #  at scenario boundaries, after failed calls were defused and scrubbed)
     req = json.loads(sys.stdin.read())
     real_stdout = sys.stdout
     sys.stdout = open(os.devnull, "w")
@@ -27,7 +30,9 @@ def main():
             out.append(run_scenario(vsc, render, flat, sc, variant))
         except Exception as e:
             out.append(["harness-exception", repr(e)[:200]])
+            flat.defuse(e)
         reset_library()
+        gc.collect()
     os.dup2(saved_fd, 1)
     real_stdout.write(json.dumps(out) + "\n")
     real_stdout.flush()
@@ -119,6 +124,9 @@ def run_scenario(vsc, render, flat, sc, variant):
             # a failing call produces no values; which exception it raises under which diagnostic flag is not C09's
             # subject (C02 judges exception types at default flags)
             trace.append(["failed"])
+            flat.defuse(e)
+            for o_ in objs + [noise]:
+                flat.scrub(o_)
     return trace
 
 
